@@ -789,8 +789,16 @@ func ruleW9(c *Ctx) {
 			return ""
 		}
 		pp, tn := namedOf(cal.Signature.Recv().Type())
-		if pp == "sync" || pp == "sync/atomic" {
+		if pp == "sync/atomic" {
 			return "synchronisation primitive " + pp + "." + tn
+		}
+		if pp == "sync" {
+			switch tn {
+			case "Mutex", "RWMutex", "Once", "WaitGroup", "Cond":
+				return "synchronisation primitive sync." + tn
+			}
+			// sync.Map and sync.Pool are process-wide storage: values put there by one execution are
+			// found by the next
 		}
 		return ""
 	}
@@ -956,6 +964,7 @@ func init() {
 }
 
 var i9Exceptions = map[string]string{
+	"(starlark.rangeValue).contains: / overflow": "the quotient is only compared with 0 and the length, and only when the remainder is zero; the single wrapping case (delta = MinInt, step = -1) yields a negative quotient and the answer False, which is also the exact answer (the exact quotient 2^63 exceeds every length)",
 	"(lib/time.Duration).Binary: /": "duration / int (operator /, not //): the time module defines it as Go's Duration division, which discards the sub-nanosecond part toward zero",
 }
 
@@ -1054,6 +1063,34 @@ func ruleI9(c *Ctx) {
 				key = fmt.Sprintf("%s #%d", base, ord[base])
 			}
 			pos := c.P.Pos(bo.Pos())
+			// the one overflowing signed division: MinInt64 / -1 (wraps to MinInt64, no panic)
+			if bo.Op == token.QUO && i9Size(bt) == 8 {
+				if _, isK := constInt(bo.Y); !isK && i9NonNeg(bo.Y, bo.Block(), 0) == "" && i9NonNeg(bo.X, bo.Block(), 0) == "" && i2Small(bo.X, bo.Block(), 0) == "" && !onlyZeroTested(bo) {
+					guarded := false
+					// a test mentioning -1 or MinInt64 in a block that dominates the division (the test is a
+					// conjunction, so no single edge of it dominates: `if i == -1 && d == MinInt64 { return err }`)
+					for d := bo.Block(); d != nil; d = d.Idom() {
+						if len(d.Instrs) == 0 {
+							continue
+						}
+						ifi, ok := d.Instrs[len(d.Instrs)-1].(*ssa.If)
+						if !ok {
+							continue
+						}
+						cond, _ := stripNot(ifi.Cond)
+						for v := range backSlice(cond) {
+							if k, ok := constInt(v); ok && (k == -1 || k == math.MinInt64) {
+								guarded = true
+							}
+						}
+					}
+					if r, ok := i9Exceptions[key+" overflow"]; ok && !guarded {
+						c.except(key+" overflow", pos, r)
+					} else if !guarded && w3Exceptions[fnName(outermost(fn))] == "" {
+						c.viol(key+" overflow", pos, fmt.Sprintf("64-bit signed division in %s with a divisor that may be -1 and a dividend that may be the most negative value: Go's MinInt64 / -1 wraps to MinInt64, so the quotient has the wrong sign instead of being exact or rejected (use Int.Div, or test for the case)", fnName(fn)))
+					}
+				}
+			}
 			xs, ys := i9NonNeg(bo.X, bo.Block(), 0), i9NonNeg(bo.Y, bo.Block(), 0)
 			switch {
 			case xs != "" && ys != "":
@@ -1138,6 +1175,29 @@ func i9NonNeg(v ssa.Value, at *ssa.BasicBlock, depth int) string {
 			if i9NonNeg(x.X, at, depth+1) != "" || i9NonNeg(x.Y, at, depth+1) != "" {
 				return "masked"
 			}
+		case token.SUB:
+			// a - b (- k) under a dominating a > b: the difference of an ordered pair (overflow is rule I6's concern)
+			a, b := x.X, x.Y
+			if inner, ok := x.X.(*ssa.BinOp); ok && inner.Op == token.SUB {
+				if k, isK := constInt(inner.Y); isK && k >= 0 && k <= 1 {
+					a = inner.X
+				}
+			}
+			for _, pc := range pathConds(at) {
+				cond, neg := stripNot(pc.If.Cond)
+				bo, ok := cond.(*ssa.BinOp)
+				if !ok {
+					continue
+				}
+				taken := pc.Branch != neg
+				op := bo.Op
+				if !taken {
+					op = i9Neg(op)
+				}
+				if (i9Same(bo.X, a) && i9Same(bo.Y, b) && (op == token.GTR || op == token.GEQ)) || (i9Same(bo.X, b) && i9Same(bo.Y, a) && (op == token.LSS || op == token.LEQ)) {
+					return "difference of an ordered pair"
+				}
+			}
 		case token.ADD, token.MUL, token.QUO, token.REM, token.SHR:
 			if i9NonNeg(x.X, at, depth+1) != "" && i9NonNeg(x.Y, at, depth+1) != "" {
 				return "arithmetic on non-negative values"
@@ -1177,6 +1237,35 @@ func i9NonNeg(v ssa.Value, at *ssa.BasicBlock, depth int) string {
 			}
 		}
 	case *ssa.UnOp:
+		if x.Op == token.SUB {
+			// -v where a dominating test shows v < 0 (or v <= 0)
+			for _, pc := range pathConds(at) {
+				cond, neg := stripNot(pc.If.Cond)
+				bo, ok := cond.(*ssa.BinOp)
+				if !ok {
+					continue
+				}
+				taken := pc.Branch != neg
+				op := bo.Op
+				var k int64
+				var okk bool
+				if i9Same(bo.X, x.X) {
+					k, okk = constInt(bo.Y)
+				} else if i9Same(bo.Y, x.X) {
+					k, okk = constInt(bo.X)
+					op = i9Flip(op)
+				}
+				if !okk {
+					continue
+				}
+				if !taken {
+					op = i9Neg(op)
+				}
+				if (op == token.LSS && k <= 0) || (op == token.LEQ && k <= 0) {
+					return "negation of a value known to be negative"
+				}
+			}
+		}
 		if x.Op == token.MUL {
 			// load of a field documented by its uses as a count: len-like names
 			if fa, ok := x.X.(*ssa.FieldAddr); ok {
